@@ -484,15 +484,28 @@ func Run(root func(), c Config, s *Tape) Result {
 		now := time.Now()
 		var en, deferred []*gate
 		var nextHeld time.Time
-		for _, g := range parked {
-			if yieldOn && !g.judged {
-				g.judged = true
-				if g.t.ID != "0" && (g.site>>8)%yieldMod == yieldTarget && yieldsLeft > 0 && S.Draw(2) == 0 {
+		if yieldOn {
+			// (tasks woken by the same event park in an order the Go runtime chooses:
+			// the tape's draws are handed out in task-id order instead)
+			var fresh []*gate
+			for _, g := range parked {
+				if !g.judged {
+					g.judged = true
+					if g.t.ID != "0" && (g.site>>8)%yieldMod == yieldTarget {
+						fresh = append(fresh, g)
+					}
+				}
+			}
+			sort.Slice(fresh, func(i, j int) bool { return fresh[i].t.ID < fresh[j].t.ID })
+			for _, g := range fresh {
+				if yieldsLeft > 0 && S.Draw(2) == 0 {
 					yieldsLeft--
 					res.Yields++
 					g.yielded = true
 				}
 			}
+		}
+		for _, g := range parked {
 			if !g.held.IsZero() {
 				if g.held.After(now) {
 					if nextHeld.IsZero() || g.held.Before(nextHeld) {
